@@ -548,4 +548,41 @@ example : (createCmd .fd (fun p => if p = Tape.str "./img.fd" ∨ p = Tape.str "
   (disk_create_refuses_archive_as_source .fd _ false (Tape.str "img.fd") [Tape.str "other.dat", Tape.str "./img.fd"]
     ⟨Tape.str "./img.fd", by simp, by decide +kernel⟩).1
 
+/-- **C20 / C09-like (disk: all or nothing, no hypothesis)**: for every world, every source list and every
+    byte string given as existing archive, `--create` and `--add` either return 0 and write exactly one file,
+    the archive, or end with another status and write nothing — never two files, never a file elsewhere,
+    never a write on a failing run -/
+theorem disk_all_or_nothing (fl : Flavour) (w : Tape.World) (verbose : Bool) (archive : Str) (raw : Bytes) (srcs : List Str) :
+    (((createCmd fl w verbose archive srcs).status = .ret 0 ∧ ∃ b, (createCmd fl w verbose archive srcs).writes = [(archive, b)])
+      ∨ ((createCmd fl w verbose archive srcs).status ≠ .ret 0 ∧ (createCmd fl w verbose archive srcs).writes = []))
+    ∧ (((addCmd fl w verbose archive raw srcs).status = .ret 0 ∧ ∃ b, (addCmd fl w verbose archive raw srcs).writes = [(archive, b)])
+      ∨ ((addCmd fl w verbose archive raw srcs).status ≠ .ret 0 ∧ (addCmd fl w verbose archive raw srcs).writes = [])) := by
+  have hperf : ∀ img, ((performOn fl w verbose archive img srcs).status = .ret 0 ∧ ∃ b, (performOn fl w verbose archive img srcs).writes = [(archive, b)])
+      ∨ ((performOn fl w verbose archive img srcs).status ≠ .ret 0 ∧ (performOn fl w verbose archive img srcs).writes = []) := by
+    intro img
+    unfold performOn
+    split
+    · right; exact ⟨by simp, rfl⟩
+    · cases performCore w verbose img srcs with
+      | error e => obtain ⟨e1, o⟩ := e; right; exact ⟨by simp, rfl⟩
+      | ok st => left; exact ⟨rfl, _, rfl⟩
+  have hguard : ∀ img (run : Tape.Outcome),
+      ((run.status = .ret 0 ∧ ∃ b, run.writes = [(archive, b)]) ∨ (run.status ≠ .ret 0 ∧ run.writes = [])) →
+      (((guardSources w archive img srcs run).status = .ret 0 ∧ ∃ b, (guardSources w archive img srcs run).writes = [(archive, b)])
+        ∨ ((guardSources w archive img srcs run).status ≠ .ret 0 ∧ (guardSources w archive img srcs run).writes = [])) := by
+    intro img run h
+    unfold guardSources
+    split
+    · exact h
+    · split
+      · right; exact ⟨by simp, rfl⟩
+      · exact h
+  constructor
+  · unfold createCmd create
+    exact hguard _ _ (hperf _)
+  · unfold addCmd add
+    cases load fl raw with
+    | error e => right; exact ⟨by simp, rfl⟩
+    | ok img => exact hguard _ _ (hperf _)
+
 end Moto.C20
